@@ -774,6 +774,7 @@ myth_thread_t myth_wsapi_runqueue_peek(int victim,void *ptr,size_t *psize) {
   //runqueue empty?
   if (q->top-q->base<=0){
     //empty,return NULL
+    MYTH_VERIF_EVQZ2("QPeek", victim, 0, 0);
     return NULL;
   }
   //Check cache status
@@ -840,6 +841,7 @@ myth_thread_t myth_wsapi_runqueue_peek(int victim,void *ptr,size_t *psize) {
     myth_wsqueue_rbarrier();
     s1=wc->seq;
   }while ((s0 & 1)||(s1^s0));
+  MYTH_VERIF_EVQZ2("QPeek", victim, VD(ret), (psize ? *psize : 0));
   return ret;
 }
 
